@@ -1,8 +1,8 @@
-(* C05 -- proofs about ArrayModel.v: Array::Insert / AddBack with the value argument aliasing ANY element, with and
-   without growth; histories of operations refine the list operations; no allocation within reserved capacity *)
+(* C05 -- proofs about ArrayModel.v.  Elements are `option V` (None = a moved-from object), so the statements also
+   cover arrays that contain moved-from elements (e.g. after Insert(j, std::move(a[i]))). *)
 From Coq Require Import List Arith Lia Bool ZArith.
 From MomoCommon Require GenPrelude.
-From C05 Require Import ArrayShift ArrayModel ShiftProofs.
+From C05 Require Import ArrayShift ArrayModel ShiftProofs FilterProofs.
 From C05 Require GrowProofs Gen_Grow.
 Import ListNotations.
 
@@ -16,21 +16,27 @@ Variable growOnReserve nothrowMove nothrowReloc canRealloc : bool.
 Notation array := (array V).
 Notation mkArray := (mkArray V).
 Notation run_op := (run_op V self_move after_move ic growOnReserve nothrowMove nothrowReloc canRealloc).
+Notation O := (option V).
+Notation after_o := (after_o V after_move).
+Notation moved_out := (moved_out V after_move).
+Notation arg_val := (arg_val V).
 
 (* sizes fit into size_t *)
 Definition fits (n : nat) : Prop := (Z.of_nat n < 2 ^ 64)%Z.
+Lemma fits_le n m : n <= m -> fits m -> fits n.
+Proof. unfold fits. lia. Qed.
 
 (* the argument is a temporary or refers to an existing element (any index) *)
 Definition arg_in (n : nat) (x : arg V) : Prop := match x with ArgVal _ => True | ArgRef p => p < n end.
 
-Lemma cap_arr_of (l : list V) r : cap (arr_of l r) = length l + r.
-Proof. unfold cap; simpl. apply length_lives_raws. Qed.
+Lemma cap_arr_ofo (l : list O) r : cap (arr_ofo l r) = length l + r.
+Proof. unfold cap; simpl. apply length_objs_raws. Qed.
 
-Lemma read_arg_arr_of (l : list V) r x d :
-  arg_in (length l) x -> read_arg V (arr_of l r) x = Ok (Some (arg_val V l d x)).
+Lemma read_arg_arr_ofo (l : list O) r x :
+  arg_in (length l) x -> read_arg V (arr_ofo l r) x = Ok (arg_val l x).
 Proof.
-  destruct x as [v|p]; simpl; auto. intros Hp. unfold obj_at.
-  rewrite (get_lives_raws V l r p d). destruct (Nat.ltb_spec p (length l)); [auto|lia].
+  destruct x as [v|p]; simpl; auto. intros Hp. apply obj_at_mcell.
+  rewrite get_objs_raws. destruct (Nat.ltb_spec p (length l)); [auto|lia].
 Qed.
 
 Lemma grow_capacity_ok capacity minNew cause linear :
@@ -43,283 +49,675 @@ Proof.
   destruct (Z.leb_spec (Z.of_nat minNew) r); [|lia]. exists (Z.to_nat r). split; auto. lia.
 Qed.
 
-Lemma regrow_arr_of (l : list V) r c : regrow V (arr_of l r) c = arr_of l (r + (c - (length l + r))).
+Lemma regrow_arr_ofo (l : list O) r c : regrow V (arr_ofo l r) c = arr_ofo l (r + (c - (length l + r))).
 Proof.
-  unfold regrow. rewrite cap_arr_of. unfold arr_of. simpl. f_equal.
+  unfold regrow. rewrite cap_arr_ofo. unfold arr_ofo. simpl. f_equal.
   rewrite <- app_assoc. f_equal. unfold raws. rewrite repeat_app. reflexivity.
 Qed.
 
-Lemma pv_grow_ok (l : list V) r al minNew cause :
+Lemma pv_grow_ok (l : list O) r al minNew cause :
   length l + r < minNew -> fits minNew ->
-  exists r', pv_grow V growOnReserve (mkArray (arr_of l r) al) minNew cause = Ok (mkArray (arr_of l r') (S al)) /\
+  exists r', pv_grow V growOnReserve (mkArray (arr_ofo l r) al) minNew cause = Ok (mkArray (arr_ofo l r') (S al)) /\
              minNew <= length l + r'.
 Proof.
-  intros Hlt Hf. unfold pv_grow. simpl body. rewrite cap_arr_of.
+  intros Hlt Hf. unfold pv_grow. simpl body. rewrite cap_arr_ofo.
   destruct (grow_capacity_ok (length l + r) minNew cause true Hlt Hf) as (c1 & -> & _).
   destruct (grow_capacity_ok (length l + r) minNew cause false Hlt Hf) as (c2 & -> & Hc2). simpl.
-  rewrite regrow_arr_of. eexists; split; [reflexivity|]. lia.
+  rewrite regrow_arr_ofo. eexists; split; [reflexivity|]. lia.
 Qed.
 
-(* an object outside the array as the source of count copies (the ArrayItemHandler temporary) *)
-Lemma insert_temp_refines (l : list V) r index count v :
+(* the ArrayItemHandler temporary as the source of count copies *)
+Lemma insert_temp_refines (l : list O) r index count (o : O) :
   index <= length l -> count <= r ->
-  insert_nogrow_gen V self_move after_move true (source_temp V (Some v)) (arr_of l r) index count =
-    Ok (arr_of (firstn index l ++ repeat v count ++ skipn index l) (r - count)).
-Proof.
-  intros Hi Hc. destruct (Nat.eq_dec count 0) as [->|Hne].
-  - rewrite insert_count0_is_identity; [|simpl; auto|simpl; rewrite cap_arr_of; lia].
-    simpl. rewrite firstn_skipn, Nat.sub_0_r. reflexivity.
-  - pose proof (insert_pure_refines V self_move after_move (source_temp V (Some v)) l r index (repeat v count) v
-                  (fun _ => ArgVal v)) as H.
-    rewrite repeat_length in H. apply H; auto; try lia; try (simpl; auto).
-    intros k Hk. apply nth_error_nth. rewrite nth_error_repeat; auto.
-Qed.
+  insert_nogrow_gen V self_move after_move true (source_temp V o) (arr_ofo l r) index count =
+    Ok (arr_ofo (firstn index l ++ repeat o count ++ skipn index l) (r - count)).
+Proof. intros. apply insert_const_refines; auto. Qed.
 
 (* ---- Array::Insert(index, count, item): item may alias ANY element; any capacity (growth or not) ---- *)
-Theorem array_insert_refines (l : list V) r al index count (x : arg V) d :
+Theorem array_insert_refines (l : list O) r al index count (x : arg V) :
   index <= length l -> arg_in (length l) x -> fits (length l + count) ->
-  exists r', array_insert V self_move after_move growOnReserve (mkArray (arr_of l r) al) index count x =
-      Ok (mkArray (arr_of (firstn index l ++ repeat (arg_val V l d x) count ++ skipn index l) r')
+  exists r', array_insert V self_move after_move growOnReserve (mkArray (arr_ofo l r) al) index count x =
+      Ok (mkArray (arr_ofo (firstn index l ++ repeat (arg_val l x) count ++ skipn index l) r')
                   (if r <? count then S al else al)) /\
     (count <= r -> r' = r - count) /\ length l + r <= length l + count + r'.
 Proof.
   intros Hi Hx Hf. unfold array_insert. cbv zeta. simpl body. simpl allocs.
-  replace (cnt (arr_of l r)) with (length l) by reflexivity. rewrite cap_arr_of.
+  replace (cnt (arr_ofo l r)) with (length l) by reflexivity. rewrite cap_arr_ofo.
   destruct (Nat.ltb_spec (length l + r) (length l + count)) as [Hg|Hg].
-  - (* growth: the temporary copy is made first *)
-    destruct (Nat.ltb_spec r count); [|lia]. cbn [orb].
-    rewrite (read_arg_arr_of l r x d Hx). simpl.
+  - destruct (Nat.ltb_spec r count); [|lia]. cbn [orb].
+    rewrite (read_arg_arr_ofo l r x Hx). simpl.
     destruct (pv_grow_ok l r al (length l + count) cause_add Hg Hf) as (r1 & -> & Hr1). simpl.
     rewrite insert_temp_refines by (auto; lia). simpl. eexists; split; [reflexivity|]. split; intros; lia.
   - destruct (Nat.ltb_spec r count); [lia|]. cbn [orb].
-    destruct (alias_at_or_after index (length l) (pv_index_of V (mkArray (arr_of l r) al) x)) eqn:Ha.
-    + (* aliasing an element at or behind the insertion point: temporary copy, no growth *)
-      rewrite (read_arg_arr_of l r x d Hx). simpl.
+    destruct (alias_at_or_after index (length l) (pv_index_of V (mkArray (arr_ofo l r) al) x)) eqn:Ha.
+    + rewrite (read_arg_arr_ofo l r x Hx). simpl.
       rewrite insert_temp_refines by (auto; lia). simpl. eexists; split; [reflexivity|]. split; intros; lia.
-    + (* a temporary, or an element in front of the insertion point: used in place *)
-      assert (Hok : arg_ok V index x).
+    + assert (Hok : arg_ok V index x).
       { destruct x as [v|p]; simpl; auto. simpl in Hx. unfold pv_index_of in Ha. simpl in Ha.
         destruct (Nat.ltb_spec p (length l)); [|lia]. simpl in Ha.
         destruct (Nat.leb_spec index p), (Nat.ltb_spec p (length l)); simpl in Ha; try congruence; lia. }
-      rewrite (insert_copies_refines V self_move after_move l r index count x d) by (auto; lia).
+      rewrite (insert_copies_refines V self_move after_move l r index count x) by (auto; lia).
       simpl. eexists; split; [reflexivity|]. split; intros; lia.
 Qed.
 
-(* ---- Array::AddBack(const Item&): item may alias any element; all three pvAddBackGrow code paths ---- *)
-Lemma add_back_ctor_arr_of (l : list V) r v :
-  0 < r -> add_back_ctor V (arr_of l r) (Some v) = Ok (arr_of (l ++ [v]) (r - 1)).
+Lemma add_back_ctor_arr_ofo (l : list O) r (o : O) :
+  0 < r -> add_back_ctor V (arr_ofo l r) o = Ok (arr_ofo (l ++ [o]) (r - 1)).
 Proof.
   intros Hr. rewrite add_back_ctor_ok.
-  - f_equal. unfold arr_of. simpl. rewrite app_length. simpl. rewrite Nat.add_1_r. f_equal.
+  - f_equal. unfold arr_ofo. simpl. rewrite app_length. simpl. rewrite Nat.add_1_r. f_equal.
     apply get_ext.
-    + rewrite length_set, !length_lives_raws, app_length. simpl. lia.
-    + intros j. rewrite get_set by (rewrite length_lives_raws; lia).
-      rewrite (get_lives_raws V (l ++ [v]) (r - 1) j v), (get_lives_raws V l r j v), app_length. simpl.
+    + rewrite length_set, !length_objs_raws, app_length. simpl. lia.
+    + intros j. rewrite get_set by (rewrite length_objs_raws; lia).
+      rewrite !get_objs_raws, app_length. simpl.
       destruct (Nat.eqb_spec j (length l)).
       * subst. destruct (Nat.ltb_spec (length l) (length l + 1)); [|lia]. rewrite app_nth2 by lia.
         rewrite Nat.sub_diag. reflexivity.
       * destruct (Nat.ltb_spec j (length l + 1)), (Nat.ltb_spec j (length l)); try lia; auto.
         rewrite app_nth1 by lia. reflexivity.
-  - rewrite cap_arr_of. simpl. lia.
-  - simpl. rewrite (get_lives_raws V l r (length l) v). destruct (Nat.ltb_spec (length l) (length l)); [lia|auto].
+  - rewrite cap_arr_ofo. simpl. lia.
+  - simpl. rewrite get_objs_raws. destruct (Nat.ltb_spec (length l) (length l)); [lia|auto].
 Qed.
 
-Theorem array_add_back_refines (l : list V) r al (x : arg V) d :
+Theorem array_add_back_refines (l : list O) r al (x : arg V) :
   arg_in (length l) x -> fits (length l + 1) ->
-  exists r', array_add_back V growOnReserve nothrowReloc (mkArray (arr_of l r) al) x =
-      Ok (mkArray (arr_of (l ++ [arg_val V l d x]) r') (if r =? 0 then S al else al)) /\ (0 < r -> r' = r - 1) /\
+  exists r', array_add_back V growOnReserve nothrowReloc (mkArray (arr_ofo l r) al) x =
+      Ok (mkArray (arr_ofo (l ++ [arg_val l x]) r') (if r =? 0 then S al else al)) /\ (0 < r -> r' = r - 1) /\
       length l + r <= length l + 1 + r'.
 Proof.
   intros Hx Hf. unfold array_add_back. simpl body. simpl allocs.
-  replace (cnt (arr_of l r)) with (length l) by reflexivity. rewrite cap_arr_of.
+  replace (cnt (arr_ofo l r)) with (length l) by reflexivity. rewrite cap_arr_ofo.
   destruct (Nat.ltb_spec (length l) (length l + r)) as [Hroom|Hfull].
   - destruct (Nat.eqb_spec r 0); [lia|].
-    rewrite (read_arg_arr_of l r x d Hx). simpl. rewrite add_back_ctor_arr_of by lia. simpl.
+    rewrite (read_arg_arr_ofo l r x Hx). simpl. rewrite add_back_ctor_arr_ofo by lia. simpl.
     eexists; split; [reflexivity|]. split; intros; lia.
   - assert (r = 0) by lia. subst r. simpl Nat.eqb. cbv iota.
     destruct nothrowReloc.
-    + rewrite (read_arg_arr_of l 0 x d Hx). simpl.
+    + rewrite (read_arg_arr_ofo l 0 x Hx). simpl.
       destruct (pv_grow_ok l 0 al (length l + 1) cause_add ltac:(lia) Hf) as (r1 & -> & Hr1). simpl.
-      rewrite add_back_ctor_arr_of by lia. simpl. eexists; split; [reflexivity|]. split; intros; lia.
+      rewrite add_back_ctor_arr_ofo by lia. simpl. eexists; split; [reflexivity|]. split; intros; lia.
     + destruct (grow_capacity_ok (length l + 0) (length l + 1) cause_add false ltac:(lia) Hf) as (c & -> & Hc). simpl.
-      rewrite (read_arg_arr_of l 0 x d Hx). simpl. rewrite regrow_arr_of.
-      rewrite add_back_ctor_arr_of by lia. simpl. eexists; split; [reflexivity|]. split; intros; lia.
+      rewrite (read_arg_arr_ofo l 0 x Hx). simpl. rewrite regrow_arr_ofo.
+      rewrite add_back_ctor_arr_ofo by lia. simpl. eexists; split; [reflexivity|]. split; intros; lia.
 Qed.
 
-(* ---- Reserve ---- *)
-Theorem array_reserve_ok (l : list V) r al n :
+Theorem array_reserve_ok (l : list O) r al n :
   fits n ->
-  exists r', array_reserve V growOnReserve (mkArray (arr_of l r) al) n =
-      Ok (mkArray (arr_of l r') (if length l + r <? n then S al else al)) /\ n <= length l + r' /\ r <= r' /\
+  exists r', array_reserve V growOnReserve (mkArray (arr_ofo l r) al) n =
+      Ok (mkArray (arr_ofo l r') (if length l + r <? n then S al else al)) /\ n <= length l + r' /\ r <= r' /\
       (n <= length l + r -> r' = r).
 Proof.
-  intros Hf. unfold array_reserve. simpl body. rewrite cap_arr_of.
+  intros Hf. unfold array_reserve. simpl body. rewrite cap_arr_ofo.
   destruct (Nat.ltb_spec (length l + r) n).
   - destruct (pv_grow_ok l r al n cause_reserve H Hf) as (r1 & -> & Hr1). exists r1. split; auto; repeat split; auto; try lia.
   - exists r. split; auto; repeat split; auto; try lia.
 Qed.
 
-(* ================================================================== histories *)
-(* list-level meaning of an operation (None = precondition violated) *)
-Definition spec_op (l : list V) (d : V) (o : op V) : option (list V) :=
-  match o with
-  | OAddBack _ (ArgVal v) => Some (l ++ [v])
-  | OAddBack _ (ArgRef p) => if p <? length l then Some (l ++ [nth p l d]) else None
-  | OInsert _ i c (ArgVal v) => if i <=? length l then Some (firstn i l ++ repeat v c ++ skipn i l) else None
-  | OInsert _ i c (ArgRef p) =>
-      if (i <=? length l) && (p <? length l) then Some (firstn i l ++ repeat (nth p l d) c ++ skipn i l) else None
-  | OInsertRange _ i vs => if i <=? length l then Some (firstn i l ++ vs ++ skipn i l) else None
-  | ORemove _ i c => if i + c <=? length l then Some (firstn i l ++ skipn (i + c) l) else None
-  | OReserve _ n => Some l
-  | _ => None
-  end.
-
-
-Lemma array_insert_range_refines (l : list V) r al index (vs : list V) :
+Lemma array_insert_range_refines (l : list O) r al index (vs : list V) :
   index <= length l -> fits (length l + length vs) ->
-  exists r', array_insert_range V self_move after_move growOnReserve (mkArray (arr_of l r) al) index vs =
-      Ok (mkArray (arr_of (firstn index l ++ vs ++ skipn index l) r') (if r <? length vs then S al else al)) /\
+  exists r', array_insert_range V self_move after_move growOnReserve (mkArray (arr_ofo l r) al) index vs =
+      Ok (mkArray (arr_ofo (firstn index l ++ map Some vs ++ skipn index l) r') (if r <? length vs then S al else al)) /\
       (length vs <= r -> r' = r - length vs) /\ length l + r <= length l + length vs + r'.
 Proof.
   intros Hi Hf. unfold array_insert_range. cbv zeta. simpl body.
-  replace (cnt (arr_of l r)) with (length l) by reflexivity. rewrite cap_arr_of.
-  assert (Hmap : forall d, map (arg_val V l d) (map (@ArgVal V) vs) = vs).
-  { intros d. rewrite map_map. simpl. apply map_id. }
+  replace (cnt (arr_ofo l r)) with (length l) by reflexivity. rewrite cap_arr_ofo.
+  assert (Hmap : map (arg_val l) (map (@ArgVal V) vs) = map Some vs).
+  { rewrite map_map. reflexivity. }
   assert (Hall : Forall (arg_ok V index) (map (@ArgVal V) vs)).
   { apply Forall_forall. intros x Hin. apply in_map_iff in Hin. destruct Hin as (v & <- & _). simpl. auto. }
   destruct (Nat.ltb_spec (length l + r) (length l + length vs)) as [Hg|Hg].
   - destruct (Nat.ltb_spec r (length vs)); [|lia].
     destruct (pv_grow_ok l r al (length l + length vs) cause_add Hg Hf) as (r1 & -> & Hr1). simpl.
-    destruct vs as [|v0 vs'].
-    + simpl in Hg. lia.
-    + rewrite (insert_range_refines V self_move after_move l r1 index _ v0) by (auto; rewrite ?map_length; lia).
-      rewrite Hmap, map_length. simpl. eexists; split; [reflexivity|]. split; intros; simpl in *; lia.
+    rewrite (insert_range_refines V self_move after_move l r1 index) by (auto; rewrite ?map_length; lia).
+    rewrite Hmap, map_length. simpl. eexists; split; [reflexivity|]. split; intros; lia.
   - destruct (Nat.ltb_spec r (length vs)); [lia|]. simpl.
-    destruct vs as [|v0 vs'].
-    + unfold insert_nogrow_range. simpl length.
-      rewrite insert_count0_is_identity; [|simpl; auto|simpl; rewrite cap_arr_of; lia].
-      simpl. rewrite firstn_skipn. eexists; split; [reflexivity|]. split; intros; simpl; lia.
-    + rewrite (insert_range_refines V self_move after_move l r index _ v0) by (auto; rewrite ?map_length; lia).
-      rewrite Hmap, map_length. simpl. eexists; split; [reflexivity|]. split; intros; simpl in *; lia.
+    rewrite (insert_range_refines V self_move after_move l r index) by (auto; rewrite ?map_length; lia).
+    rewrite Hmap, map_length. simpl. eexists; split; [reflexivity|]. split; intros; lia.
 Qed.
 
-
-Lemma fits_le n m : n <= m -> fits m -> fits n.
-Proof. unfold fits. lia. Qed.
-
-Lemma array_remove_refines (l : list V) r al index count :
+Lemma array_remove_refines (l : list O) r al index count :
   index + count <= length l ->
-  array_remove V self_move after_move (mkArray (arr_of l r) al) index count =
-    Ok (mkArray (arr_of (firstn index l ++ skipn (index + count) l) (r + count)) al).
+  array_remove V self_move after_move (mkArray (arr_ofo l r) al) index count =
+    Ok (mkArray (arr_ofo (firstn index l ++ skipn (index + count) l) (r + count)) al).
 Proof.
   intros H. unfold array_remove, with_body. simpl body.
   rewrite (remove_refines V self_move after_move l r index count H). reflexivity.
 Qed.
 
-(* one step of a history: the model refines the list operation, the capacity never decreases, and nothing is
-   allocated while the new length (or the reserved amount) stays within the current capacity *)
-Lemma step_refines (l l' : list V) r al d (o : op V) B :
-  spec_op l d o = Some l' -> length l' <= B -> (forall n, o = OReserve V n -> n <= B) -> fits B ->
-  exists r' al', run_op (mkArray (arr_of l r) al) o = Ok (mkArray (arr_of l' r') al') /\
-    length l + r <= length l' + r' /\
-    (B <= length l + r -> al' = al /\ length l' + r' = length l + r).
+Lemma array_remove_filter_refines (l : list O) r al p :
+  array_remove_filter V self_move after_move (mkArray (arr_ofo l r) al) p =
+    Ok (mkArray (arr_ofo (filter (keep V p) l) (r + (length l - length (filter (keep V p) l)))) al).
 Proof.
-  intros Hs HB Hres HfB. assert (Hf : fits (length l')) by (apply (fits_le _ B); auto).
-  destruct o; simpl in Hs; try discriminate; simpl run_op.
-  - (* AddBack *)
-    assert (Hx : arg_in (length l) x /\ l' = l ++ [arg_val V l d x]).
-    { destruct x as [v|p]; simpl in *; [inversion Hs; auto|].
-      destruct (Nat.ltb_spec p (length l)); inversion Hs; auto. }
-    destruct Hx as (Hx & ->). rewrite app_length in *. simpl in *.
-    destruct (array_add_back_refines l r al x d Hx Hf) as (r' & -> & Hr1 & Hr2).
-    eexists; eexists; split; [reflexivity|]. rewrite ?app_length; simpl. split; [lia|]. intros Hle.
-    destruct (Nat.eqb_spec r 0); [lia|]. split; auto. specialize (Hr1 ltac:(lia)). lia.
-  - (* Insert *)
-    assert (Hx : index <= length l /\ arg_in (length l) x /\
-                 l' = firstn index l ++ repeat (arg_val V l d x) count ++ skipn index l).
-    { destruct x as [v|p]; simpl in *.
-      - destruct (Nat.leb_spec index (length l)); inversion Hs; auto.
-      - destruct (Nat.leb_spec index (length l)), (Nat.ltb_spec p (length l)); inversion Hs; auto. }
-    destruct Hx as (Hi & Hx & ->). rewrite (length_spec V) in * by auto. rewrite repeat_length in *.
-    destruct (array_insert_refines l r al index count x d Hi Hx Hf) as (r' & -> & Hr1 & Hr2).
-    eexists; eexists; split; [reflexivity|]. rewrite ?(length_spec V), ?repeat_length by auto. split; [lia|]. intros Hle.
-    destruct (Nat.ltb_spec r count); [lia|]. split; auto. specialize (Hr1 ltac:(lia)). lia.
-  - (* InsertRange *)
-    destruct (Nat.leb_spec index (length l)); inversion Hs; subst l'. rewrite (length_spec V) in * by auto.
-    destruct (array_insert_range_refines l r al index vs H Hf) as (r' & -> & Hr1 & Hr2).
-    eexists; eexists; split; [reflexivity|]. rewrite ?(length_spec V) by auto. split; [lia|]. intros Hle.
-    destruct (Nat.ltb_spec r (length vs)); [lia|]. split; auto. specialize (Hr1 ltac:(lia)). lia.
-  - (* Remove *)
-    destruct (Nat.leb_spec (index + count) (length l)); inversion Hs; subst l'.
-    rewrite array_remove_refines by auto. eexists; eexists; split; [reflexivity|].
-    assert (Hlen : length (firstn index l ++ skipn (index + count) l) = length l - count).
-    { rewrite app_length, firstn_length, skipn_length. lia. }
-    rewrite Hlen. split; [lia|]. intros; split; auto. lia.
-  - (* Reserve *)
-    inversion Hs; subst l'. specialize (Hres n eq_refl).
-    destruct (array_reserve_ok l r al n (fits_le _ _ Hres HfB)) as (r' & -> & Hr1 & Hr2 & Hr3).
-    eexists; eexists; split; [reflexivity|]. split; [lia|]. intros Hle.
-    destruct (Nat.ltb_spec (length l + r) n); [lia|]. rewrite Hr3 by lia. split; auto.
+  unfold array_remove_filter. simpl body. rewrite (remove_filter_refines V self_move after_move p l r). reflexivity.
 Qed.
 
-(* ---- histories ---- *)
+(* ================================================================== rvalue arguments aliasing an element *)
+Lemma upd_arr_ofo (l : list O) r p (y : O) :
+  p < length l -> upd V (arr_ofo l r) p (mcell y) = arr_ofo (lset l p y) r.
+Proof.
+  intros Hp. unfold upd, arr_ofo. simpl. rewrite length_lset. f_equal.
+  apply get_ext.
+  - rewrite length_set, !length_objs_raws, length_lset. reflexivity.
+  - intros j. rewrite get_set by (rewrite length_objs_raws; lia). rewrite !get_objs_raws, length_lset.
+    rewrite nth_lset by auto. destruct (Nat.eqb_spec j p).
+    + subst. destruct (Nat.ltb_spec p (length l)); [auto|lia].
+    + reflexivity.
+Qed.
+
+Lemma take_arg_arr_ofo (l : list O) r x :
+  arg_in (length l) x ->
+  take_arg V after_move (arr_ofo l r) x = Ok (arg_val l x, arr_ofo (moved_out l x) r).
+Proof.
+  destruct x as [v|p]; simpl; auto. intros Hp.
+  rewrite (obj_at_mcell V _ p (nth p l None)) by (rewrite get_objs_raws; destruct (Nat.ltb_spec p (length l)); [auto|lia]).
+  simpl. rewrite src_after_after_o, upd_arr_ofo by auto. reflexivity.
+Qed.
+
+Lemma length_moved_out (l : list O) x : length (moved_out l x) = length l.
+Proof. destruct x; simpl; auto using length_lset. Qed.
+
+(* Array::Insert(index, Item&& item) with item = any element a[p] (or a temporary), with or without growth:
+   the inserted object is the OLD a[p]; a[p] is left moved-from (after_move); everything else as the list insertion *)
+Theorem array_insert_rvalue_refines (l : list O) r al index (x : arg V) :
+  index <= length l -> arg_in (length l) x -> fits (length l + 1) ->
+  exists r', array_insert_rvalue V self_move after_move growOnReserve (mkArray (arr_ofo l r) al) index x =
+      Ok (mkArray (arr_ofo (firstn index (moved_out l x) ++ [arg_val l x] ++ skipn index (moved_out l x)) r')
+                  (if r =? 0 then S al else al)) /\
+    (0 < r -> r' = r - 1) /\ length l + r <= length l + 1 + r'.
+Proof.
+  intros Hi Hx Hf. unfold array_insert_rvalue. cbv zeta. simpl body. simpl allocs.
+  replace (cnt (arr_ofo l r)) with (length l) by reflexivity. rewrite cap_arr_ofo.
+  pose proof (length_moved_out l x) as Hlm.
+  assert (Htemp : forall r0 al0, 1 <= r0 ->
+    with_body V (mkArray (arr_ofo (moved_out l x) r0) al0)
+      (insert_nogrow_gen V self_move after_move true (source_temp V (arg_val l x)) (arr_ofo (moved_out l x) r0) index 1) =
+    Ok (mkArray (arr_ofo (firstn index (moved_out l x) ++ [arg_val l x] ++ skipn index (moved_out l x)) (r0 - 1)) al0)).
+  { intros r0 al0 Hr0. rewrite insert_temp_refines by (rewrite ?Hlm; lia). reflexivity. }
+  destruct (Nat.ltb_spec (length l + r) (length l + 1)) as [Hg|Hg].
+  - (* growth *)
+    assert (r = 0) by lia. subst r. simpl Nat.eqb. cbn [orb].
+    rewrite (take_arg_arr_ofo l 0 x Hx). simpl. rewrite cap_arr_ofo, Hlm.
+    destruct (Nat.ltb_spec (length l + 0) (length l + 1)); [|lia].
+    destruct (pv_grow_ok (moved_out l x) 0 al (length l + 1) cause_add ltac:(rewrite Hlm; lia) Hf) as (r1 & -> & Hr1).
+    simpl. rewrite Hlm in Hr1. rewrite Htemp by lia. eexists; split; [reflexivity|]. split; intros; lia.
+  - destruct (Nat.eqb_spec r 0); [lia|]. cbn [orb].
+    destruct (alias_at_or_after index (length l) (pv_index_of V (mkArray (arr_ofo l r) al) x)) eqn:Ha.
+    + rewrite (take_arg_arr_ofo l r x Hx). simpl. rewrite cap_arr_ofo, Hlm.
+      destruct (Nat.ltb_spec (length l + r) (length l + 1)); [lia|]. simpl.
+      rewrite Htemp by lia. eexists; split; [reflexivity|]. split; intros; lia.
+    + assert (Hok : arg_ok V index x).
+      { destruct x as [v|p]; simpl; auto. simpl in Hx. unfold pv_index_of in Ha. simpl in Ha.
+        destruct (Nat.ltb_spec p (length l)); [|lia]. simpl in Ha.
+        destruct (Nat.leb_spec index p), (Nat.ltb_spec p (length l)); simpl in Ha; try congruence; lia. }
+      rewrite (insert_rvalue_refines V self_move after_move l r index x) by (auto; lia).
+      simpl. eexists; split; [reflexivity|]. split; intros; lia.
+Qed.
+
+(* Array::AddBack(Item&& item) with item = any element a[p]: the appended object is the old a[p].  a[p] is left
+   moved-from -- except on the one code path where the items are COPIED to the new buffer (neither nothrow move
+   constructible nor nothrow relocatable, and growth): there a[p] keeps its value (also allowed by the contract) *)
+Theorem array_add_back_rvalue_refines (l : list O) r al (x : arg V) :
+  arg_in (length l) x -> fits (length l + 1) ->
+  exists r', array_add_back_rvalue V after_move growOnReserve nothrowMove nothrowReloc (mkArray (arr_ofo l r) al) x =
+      Ok (mkArray (arr_ofo ((if (0 <? r) || nothrowMove || nothrowReloc then moved_out l x else l) ++ [arg_val l x]) r')
+                  (if r =? 0 then S al else al)) /\
+    (0 < r -> r' = r - 1) /\ length l + r <= length l + 1 + r'.
+Proof.
+  intros Hx Hf. unfold array_add_back_rvalue. simpl body. simpl allocs.
+  replace (cnt (arr_ofo l r)) with (length l) by reflexivity. rewrite cap_arr_ofo.
+  pose proof (length_moved_out l x) as Hlm.
+  destruct (Nat.ltb_spec (length l) (length l + r)) as [Hroom|Hfull].
+  - destruct (Nat.eqb_spec r 0); [lia|]. destruct (Nat.ltb_spec 0 r); [|lia]. cbn [orb].
+    rewrite (take_arg_arr_ofo l r x Hx). simpl. rewrite add_back_ctor_arr_ofo by lia. simpl.
+    eexists; split; [reflexivity|]. split; intros; lia.
+  - assert (r = 0) by lia. subst r. simpl Nat.eqb. simpl Nat.ltb. cbn [orb]. cbv iota.
+    destruct nothrowMove; cbn [orb].
+    + destruct (pv_grow_ok l 0 al (length l + 1) cause_add ltac:(lia) Hf) as (r1 & -> & Hr1). simpl.
+      destruct x as [v|p]; simpl in Hx |- *.
+      * rewrite add_back_ctor_arr_ofo by lia. simpl. eexists; split; [reflexivity|]. split; intros; lia.
+      * destruct (Nat.ltb_spec p (length l)); [|lia].
+        pose proof (take_arg_arr_ofo l r1 (ArgRef p) ltac:(simpl; auto)) as Ht. simpl in Ht. rewrite Ht. simpl.
+        rewrite add_back_ctor_arr_ofo by lia. simpl. eexists; split; [reflexivity|]. split; intros; lia.
+    + destruct (grow_capacity_ok (length l + 0) (length l + 1) cause_add false ltac:(lia) Hf) as (c & -> & Hc). simpl.
+      destruct nothrowReloc.
+      * rewrite (take_arg_arr_ofo l 0 x Hx). simpl. rewrite regrow_arr_ofo, Hlm.
+        rewrite add_back_ctor_arr_ofo by lia. simpl. eexists; split; [reflexivity|]. split; intros; lia.
+      * rewrite (read_arg_arr_ofo l 0 x Hx). simpl. rewrite regrow_arr_ofo.
+        rewrite add_back_ctor_arr_ofo by lia. simpl. eexists; split; [reflexivity|]. split; intros; lia.
+Qed.
+
+(* ================================================================== SetCount / RemoveBack / Clear / Shrink / assign *)
+Lemma remove_back_arr_ofo (l : list O) r count :
+  count <= length l ->
+  remove_back V (arr_ofo l r) count = Ok (arr_ofo (firstn (length l - count) l) (r + count)).
+Proof.
+  intros Hc. destruct (arr_ofo_pre V l r) as (Hcn & Hcap & Hlive & Hraw).
+  destruct (remove_back_ok V (arr_ofo l r) count) as (c' & -> & Hl' & Hg'); try (rewrite ?Hcn, ?Hcap; lia).
+  { intros j Hj. rewrite Hcn in Hj. rewrite Hlive by lia. apply mcell_not_raw. }
+  rewrite Hcn. f_equal. unfold arr_ofo. rewrite firstn_length. replace (Nat.min (length l - count) (length l)) with (length l - count) by lia.
+  f_equal. apply get_ext.
+  - rewrite length_objs_raws, firstn_length, Hl', Hcap. lia.
+  - intros j. rewrite Hg', Hcn, get_objs_raws, firstn_length.
+    replace (Nat.min (length l - count) (length l)) with (length l - count) by lia.
+    destruct (Nat.ltb_spec j (length l - count)).
+    + destruct (Nat.leb_spec (length l - count) j); [lia|]. simpl. rewrite Hlive by lia.
+      rewrite nth_firstn_lt by lia. reflexivity.
+    + destruct (Nat.leb_spec (length l - count) j); [|lia]. destruct (Nat.ltb_spec j (length l)); simpl; auto;
+      try (apply Hraw; lia).
+Qed.
+
+Theorem array_remove_back_refines (l : list O) r al count :
+  count <= length l ->
+  array_remove_back V (mkArray (arr_ofo l r) al) count = Ok (mkArray (arr_ofo (firstn (length l - count) l) (r + count)) al).
+Proof. intros. unfold array_remove_back, with_body. simpl body. rewrite remove_back_arr_ofo by auto. reflexivity. Qed.
+
+Theorem array_clear_refines (l : list O) r al shrink :
+  exists r', array_clear V ic (mkArray (arr_ofo l r) al) shrink = Ok (mkArray (arr_ofo [] r') al) /\
+             (shrink = true -> r' = ic) /\ (shrink = false -> r' = length l + r).
+Proof.
+  unfold array_clear. destruct shrink.
+  - simpl body. destruct (arr_ofo_pre V l r) as (Hcn & Hcap & Hlive & Hraw).
+    destruct (destroy_ok V (cnt (arr_ofo l r)) (cells (arr_ofo l r)) 0) as (c' & -> & _).
+    + unfold cap in Hcap. lia.
+    + intros j Hj. rewrite Hlive by lia. apply mcell_not_raw.
+    + simpl. exists ic. split; [reflexivity|]. split; auto. discriminate.
+  - unfold with_body. simpl body. replace (cnt (arr_ofo l r)) with (length l) by reflexivity.
+    rewrite remove_back_arr_ofo by auto. rewrite Nat.sub_diag. simpl. eexists; split; [reflexivity|].
+    split; [discriminate|]. intros; lia.
+Qed.
+
+(* appending k copies one by one (SetCount growing in place; also SegmentedArray::pvIncCount) *)
+Lemma push_loop (G : arr V -> res O) (o : O) : forall k fuel (l : list O) r hi,
+  hi = length l + k ->
+  k <= r -> k < fuel -> (forall k' r', G (arr_ofo (l ++ repeat o k') r') = Ok o) ->
+  for_up fuel (length l) hi (fun _ b => v <- G b ;; add_back_ctor V b v) (arr_ofo l r) =
+    Ok (arr_ofo (l ++ repeat o k) (r - k)).
+Proof.
+  induction k; intros fuel l r hi -> Hk Hf HG.
+  - rewrite for_up_none by lia. simpl. rewrite app_nil_r, Nat.sub_0_r. reflexivity.
+  - destruct fuel; [lia|]. simpl for_up. destruct (Nat.ltb_spec (length l) (length l + S k)); [|lia].
+    pose proof (HG 0 r) as H0. simpl in H0. rewrite app_nil_r in H0. rewrite H0. simpl.
+    rewrite add_back_ctor_arr_ofo by lia. simpl.
+    replace (S (length l)) with (length (l ++ [o])) by (rewrite app_length; simpl; lia).
+    rewrite (IHk fuel (l ++ [o]) (r - 1) (length l + S k)); try lia; try (rewrite app_length; simpl; lia).
+    + rewrite <- app_assoc. simpl. f_equal. f_equal. lia.
+    + intros k' r'. rewrite <- app_assoc. simpl. apply (HG (S k') r').
+Qed.
+
+Local Arguments for_up : simpl never.
+
+Lemma read_arg_app (l t : list O) r x : arg_in (length l) x -> read_arg V (arr_ofo (l ++ t) r) x = Ok (arg_val l x).
+Proof.
+  intros Hx. rewrite read_arg_arr_ofo.
+  - destruct x as [v|p]; simpl in *; auto. rewrite app_nth1 by auto. reflexivity.
+  - destruct x; simpl in *; auto. rewrite app_length. lia.
+Qed.
+
+(* Array::SetCount(count, item): shrinking, growing within the capacity, growing with reallocation; item may alias *)
+Theorem array_set_count_refines (l : list O) r al m (x : arg V) :
+  arg_in (length l) x -> fits m ->
+  exists r' al', array_set_count V growOnReserve (mkArray (arr_ofo l r) al) m x =
+      Ok (mkArray (arr_ofo (firstn m l ++ repeat (arg_val l x) (m - length l)) r') al') /\
+    length l + r <= length (firstn m l ++ repeat (arg_val l x) (m - length l)) + r' /\ (m <= length l + r -> al' = al).
+Proof.
+  intros Hx Hf. unfold array_set_count. cbv zeta. simpl body. simpl allocs.
+  replace (cnt (arr_ofo l r)) with (length l) by reflexivity. rewrite cap_arr_ofo.
+  destruct (Nat.leb_spec m (length l)).
+  - unfold with_body. rewrite remove_back_arr_ofo by lia.
+    replace (length l - (length l - m)) with m by lia. replace (m - length l) with 0 by lia. simpl. rewrite app_nil_r.
+    eexists; eexists; split; [reflexivity|]. split; auto. rewrite firstn_length. lia.
+  - rewrite firstn_all2 by lia.
+    destruct (Nat.leb_spec m (length l + r)).
+    + unfold with_body.
+      rewrite (push_loop (fun b => read_arg V b x) (arg_val l x) (m - length l)); try lia.
+      * simpl. eexists; eexists; split; [reflexivity|]. split; auto. rewrite app_length, repeat_length. lia.
+      * intros k' r'. apply read_arg_app; auto.
+    + destruct (grow_capacity_ok (length l + r) m cause_reserve false ltac:(lia) Hf) as (c & -> & Hc). simpl.
+      rewrite (read_arg_arr_ofo l r x Hx). simpl. unfold with_body. simpl body. rewrite regrow_arr_ofo.
+      match goal with |- context [for_up ?fu _ _ _ (arr_ofo l ?rr)] =>
+        pose proof (push_loop (fun _ => Ok (arg_val l x)) (arg_val l x) (m - length l) fu l rr m
+                      ltac:(lia) ltac:(lia) ltac:(lia) ltac:(auto)) as Hp end.
+      cbn [bind] in Hp. rewrite Hp.
+      simpl. eexists; eexists; split; [reflexivity|]. split; [rewrite app_length, repeat_length; lia|]. intros; lia.
+Qed.
+
+Lemma firstn_repeat_ {A} (a : A) n k : firstn k (repeat a n) = repeat a (Nat.min k n).
+Proof. revert k; induction n; intros [|k]; simpl; auto. f_equal. apply IHn. Qed.
+
+Lemma map_repeat_ {A B} (f : A -> B) a n : map f (repeat a n) = repeat (f a) n.
+Proof. induction n; simpl; auto. f_equal; auto. Qed.
+
+Lemma firstn_objs_raws (l : list O) r k : length l <= k -> k <= length l + r ->
+  firstn k (objs l ++ raws r) = objs l ++ raws (k - length l).
+Proof.
+  intros H1 H2. rewrite firstn_app. unfold objs at 1 2. rewrite map_length.
+  rewrite firstn_all2 by (rewrite map_length; lia). f_equal. unfold raws.
+  rewrite firstn_repeat_. f_equal. lia.
+Qed.
+
+(* Array::Shrink(capacity): the elements are unchanged, the capacity never drops below the count nor below the
+   internal capacity; with internal capacity N, count <= N and a request <= N end in the internal buffer (capacity N) *)
+Theorem array_shrink_refines (l : list O) r al n :
+  ic <= length l + r ->
+  exists r' al', array_shrink V ic canRealloc (mkArray (arr_ofo l r) al) n = Ok (mkArray (arr_ofo l r') al') /\
+    ic <= length l + r' /\ length l + r' <= length l + r /\
+    (n <= ic -> length l <= ic -> length l + r' = ic /\ al' = al) /\
+    (length l + r <> ic -> n < length l + r -> length l + r' = Nat.max (Nat.max n (length l)) ic).
+Proof.
+  intros Hwf. unfold array_shrink. cbv zeta. simpl body. simpl allocs.
+  replace (cnt (arr_ofo l r)) with (length l) by reflexivity. rewrite cap_arr_ofo.
+  destruct (Nat.leb_spec (length l + r) n); cbn [orb].
+  { exists r, al. repeat split; auto; try lia. }
+  destruct (Nat.eqb_spec (length l + r) ic); cbn [orb].
+  { exists r, al. repeat split; auto; try lia. }
+  set (c := if n <? length l then length l else n).
+  assert (Hc : c = Nat.max n (length l)) by (unfold c; destruct (Nat.ltb_spec n (length l)); lia).
+  destruct (Nat.ltb_spec ic c).
+  - unfold arr_ofo at 1. cbn [cells]. rewrite firstn_objs_raws by lia.
+    eexists (c - length l), _. split; [reflexivity|]. repeat split; try lia.
+  - unfold arr_ofo at 1. cbn [cells]. rewrite firstn_objs_raws by lia.
+    eexists (ic - length l), _. split; [reflexivity|]. repeat split; try lia.
+Qed.
+
+Theorem array_assign_refines (l : list O) r al count (x : arg V) :
+  arg_in (length l) x ->
+  exists r' al', array_assign V ic (mkArray (arr_ofo l r) al) count x =
+      Ok (mkArray (arr_ofo (repeat (arg_val l x) count) r') al') /\ ic <= count + r'.
+Proof.
+  intros Hx. unfold array_assign. simpl body. rewrite (read_arg_arr_ofo l r x Hx). simpl.
+  eexists (_ - count), _. unfold arr_ofo, objs. rewrite map_repeat_, repeat_length. split; [reflexivity|].
+  destruct (Nat.ltb_spec ic count); lia.
+Qed.
+
+Theorem array_assign_range_refines (l : list O) r al (vs : list V) :
+  exists r' al', array_assign_range V ic (mkArray (arr_ofo l r) al) vs =
+      Ok (mkArray (arr_ofo (map Some vs) r') al') /\ ic <= length vs + r'.
+Proof.
+  unfold array_assign_range. cbv zeta.
+  eexists (_ - length vs), _. unfold arr_ofo. rewrite <- lives_objs, map_length. split; [reflexivity|].
+  destruct (Nat.ltb_spec ic (length vs)); lia.
+Qed.
+
+Theorem array_set_refines (l : list O) r al i v :
+  i < length l -> array_set V (mkArray (arr_ofo l r) al) i v = Ok (mkArray (arr_ofo (lset l i (Some v)) r) al).
+Proof.
+  intros Hi. unfold array_set, with_body. simpl body. rewrite assign_val_ok.
+  - rewrite upd_arr_ofo by auto. reflexivity.
+  - simpl. auto.
+  - simpl. rewrite get_objs_raws. destruct (Nat.ltb_spec i (length l)); [apply mcell_not_raw|lia].
+Qed.
+
+(* input-iterator Insert: the items are inserted one by one through InsertCrt *)
+Lemma array_insert_crt_refines (l : list O) r al index v :
+  index <= length l -> fits (length l + 1) ->
+  exists r' al', array_insert_crt V self_move after_move growOnReserve (mkArray (arr_ofo l r) al) index v =
+      Ok (mkArray (arr_ofo (firstn index l ++ [Some v] ++ skipn index l) r') al') /\ length l + r <= length l + 1 + r'.
+Proof.
+  intros Hi Hf. unfold array_insert_crt. cbv zeta. simpl body.
+  replace (cnt (arr_ofo l r)) with (length l) by reflexivity. rewrite cap_arr_ofo.
+  destruct (Nat.ltb_spec (length l + r) (length l + 1)).
+  - destruct (pv_grow_ok l r al (length l + 1) cause_add H Hf) as (r1 & -> & Hr1). simpl.
+    unfold with_body. rewrite insert_temp_refines by lia. simpl. eexists; eexists; split; [reflexivity|]. lia.
+  - simpl. unfold with_body. rewrite insert_temp_refines by lia. simpl. eexists; eexists; split; [reflexivity|]. lia.
+Qed.
+
+Theorem array_insert_input_refines (vs : list V) : forall (l : list O) r al index,
+  index <= length l -> fits (length l + length vs) ->
+  exists r' al', array_insert_input V self_move after_move growOnReserve (mkArray (arr_ofo l r) al) index vs =
+      Ok (mkArray (arr_ofo (firstn index l ++ map Some vs ++ skipn index l) r') al') /\
+      length l + r <= length l + length vs + r'.
+Proof.
+  induction vs as [|v t IH]; intros l r al index Hi Hf; simpl.
+  - exists r, al. rewrite firstn_skipn. split; auto. lia.
+  - assert (Hf1 : fits (length l + 1)) by (apply (fits_le _ (length l + S (length t))); auto; lia).
+    destruct (array_insert_crt_refines l r al index v Hi Hf1) as (r1 & al1 & -> & Hc1). simpl.
+    set (l1 := firstn index l ++ Some v :: skipn index l).
+    assert (Hl1 : length l1 = length l + 1) by (unfold l1; rewrite app_length, firstn_length; simpl; rewrite skipn_length; lia).
+    destruct (IH l1 r1 al1 (S index)) as (r2 & al2 & -> & Hc2).
+    + lia.
+    + rewrite Hl1. apply (fits_le _ (length l + S (length t))); auto. lia.
+    + exists r2, al2. split; [|simpl in *; lia]. f_equal. f_equal. f_equal.
+      unfold l1. assert (Hfl : length (firstn index l) = index) by (rewrite firstn_length; lia).
+      replace (S index) with (length (firstn index l ++ [Some v])) at 1 2 by (rewrite app_length; simpl; lia).
+      change (firstn index l ++ Some v :: skipn index l) with (firstn index l ++ [Some v] ++ skipn index l).
+      rewrite (app_assoc (firstn index l) [Some v]).
+      rewrite firstn_app, firstn_all, Nat.sub_diag. simpl firstn at 2. rewrite app_nil_r.
+      rewrite skipn_app, skipn_all, Nat.sub_diag. simpl. rewrite <- app_assoc. reflexivity.
+Qed.
+
+(* ================================================================== histories over the FULL operation alphabet *)
+Definition ain (l : list O) (x : arg V) : bool := match x with ArgVal _ => true | ArgRef p => p <? length l end.
+Definition is_val (x : arg V) : bool := match x with ArgVal _ => true | ArgRef _ => false end.
+
+(* list-level meaning of every operation of the model (None = precondition violated).  Elements are `option V`:
+   an rvalue argument a[p] leaves None-or-value (after_move) at p, the moved object is the OLD a[p]. *)
+Definition spec_op (l : list O) (o : op V) : option (list O) :=
+  match o with
+  | OAddBack _ x => if ain l x then Some (l ++ [arg_val l x]) else None
+  | OAddBackR _ x => if ain l x && (is_val x || nothrowMove || nothrowReloc) then Some (moved_out l x ++ [arg_val l x]) else None
+  | OInsert _ i c x => if (i <=? length l) && ain l x then Some (firstn i l ++ repeat (arg_val l x) c ++ skipn i l) else None
+  | OInsertR _ i x => if (i <=? length l) && ain l x
+                      then Some (firstn i (moved_out l x) ++ [arg_val l x] ++ skipn i (moved_out l x)) else None
+  | OInsertRange _ i vs => if i <=? length l then Some (firstn i l ++ map Some vs ++ skipn i l) else None
+  | OInsertInput _ i vs => if i <=? length l then Some (firstn i l ++ map Some vs ++ skipn i l) else None
+  | ORemove _ i c => if i + c <=? length l then Some (firstn i l ++ skipn (i + c) l) else None
+  | ORemoveFilter _ p => Some (filter (keep V p) l)
+  | OSetCount _ n x => if ain l x then Some (firstn n l ++ repeat (arg_val l x) (n - length l)) else None
+  | OAssign _ n x => if ain l x then Some (repeat (arg_val l x) n) else None
+  | OAssignRange _ vs => Some (map Some vs)
+  | ORemoveBack _ n => if n <=? length l then Some (firstn (length l - n) l) else None
+  | OClear _ _ => Some []
+  | OReserve _ _ => Some l
+  | OShrink _ _ => Some l
+  | OSet _ i v => if i <? length l then Some (lset l i (Some v)) else None
+  end.
+Definition op_size (o : op V) : nat := match o with OReserve _ n => n | _ => 0 end.
+
+Lemma length_ins1 {A} (m : list A) i a : i <= length m -> length (firstn i m ++ a :: skipn i m) = length m + 1.
+Proof. intros. rewrite app_length, firstn_length. simpl. rewrite skipn_length. lia. Qed.
+
+Lemma ain_arg_in l x : ain l x = true -> arg_in (length l) x.
+Proof. destruct x; simpl; auto. intros H. apply Nat.ltb_lt; auto. Qed.
+
+Lemma step_full (l l' : list O) r al (o : op V) B :
+  spec_op l o = Some l' -> length l <= B -> length l' <= B -> op_size o <= B -> fits (B + 1) -> ic <= length l + r ->
+  exists r' al', run_op (mkArray (arr_ofo l r) al) o = Ok (mkArray (arr_ofo l' r') al') /\ ic <= length l' + r'.
+Proof.
+  intros Hs HlB HB Hsz HfB Hwf.
+  assert (Hfit : forall n, n <= B + 1 -> fits n) by (intros n Hn; apply (fits_le n (B + 1)); auto).
+  destruct o; simpl in Hs; simpl run_op.
+  - (* AddBack *) destruct (ain l x) eqn:Hx; inversion Hs; subst l'. apply ain_arg_in in Hx.
+    destruct (array_add_back_refines l r al x Hx (Hfit (length l + 1) ltac:(lia))) as (r' & -> & _ & Hc).
+    eexists; eexists; split; [reflexivity|]. rewrite app_length; simpl; lia.
+  - (* AddBack&& *) destruct (ain l x) eqn:Hx; simpl in Hs; [|discriminate]. apply ain_arg_in in Hx.
+    destruct (is_val x || nothrowMove || nothrowReloc) eqn:Hfl; inversion Hs; subst l'.
+    destruct (array_add_back_rvalue_refines l r al x Hx (Hfit (length l + 1) ltac:(lia))) as (r' & He & _ & Hc).
+    assert (Hsame : (if (0 <? r) || nothrowMove || nothrowReloc then moved_out l x else l) = moved_out l x).
+    { destruct x as [v|p]; [destruct ((0 <? r) || nothrowMove || nothrowReloc); reflexivity|].
+      simpl in Hfl. destruct (0 <? r), nothrowMove, nothrowReloc; simpl in *; auto; discriminate. }
+    rewrite Hsame in He. rewrite He. eexists; eexists; split; [reflexivity|].
+    rewrite app_length, length_moved_out; simpl; lia.
+  - (* Insert *) destruct (Nat.leb_spec index (length l)); simpl in Hs; [|discriminate].
+    destruct (ain l x) eqn:Hx; inversion Hs; subst l'. apply ain_arg_in in Hx.
+    rewrite length_spec, repeat_length in HB by auto.
+    destruct (array_insert_refines l r al index count x H Hx (Hfit (length l + count) ltac:(lia))) as (r' & -> & _ & Hc).
+    eexists; eexists; split; [reflexivity|]. rewrite length_spec, repeat_length by auto. lia.
+  - (* Insert&& *) destruct (Nat.leb_spec index (length l)); simpl in Hs; [|discriminate].
+    destruct (ain l x) eqn:Hx; inversion Hs; subst l'. apply ain_arg_in in Hx.
+    destruct (array_insert_rvalue_refines l r al index x H Hx (Hfit (length l + 1) ltac:(lia))) as (r' & -> & _ & Hc).
+    eexists; eexists; split; [reflexivity|]. simpl. rewrite length_ins1 by (rewrite length_moved_out; auto).
+    rewrite length_moved_out. lia.
+  - (* Insert range *) destruct (Nat.leb_spec index (length l)); inversion Hs; subst l'.
+    rewrite length_spec, map_length in HB by auto.
+    destruct (array_insert_range_refines l r al index vs H (Hfit (length l + length vs) ltac:(lia))) as (r' & -> & _ & Hc).
+    eexists; eexists; split; [reflexivity|]. rewrite length_spec, map_length by auto. lia.
+  - (* Remove *) destruct (Nat.leb_spec (index + count) (length l)); inversion Hs; subst l'.
+    rewrite array_remove_refines by auto. eexists; eexists; split; [reflexivity|].
+    rewrite app_length, firstn_length, skipn_length. lia.
+  - (* Remove(filter) *) inversion Hs; subst l'. rewrite array_remove_filter_refines.
+    eexists; eexists; split; [reflexivity|]. pose proof (filter_len_le (keep V p) l). lia.
+  - (* SetCount *) destruct (ain l x) eqn:Hx; inversion Hs; subst l'. apply ain_arg_in in Hx.
+    rewrite app_length, firstn_length, repeat_length in HB.
+    destruct (array_set_count_refines l r al n x Hx (Hfit (n) ltac:(lia))) as (r' & al' & -> & Hc & _).
+    eexists; eexists; split; [reflexivity|]. lia.
+  - (* assign(n, item) *) destruct (ain l x) eqn:Hx; inversion Hs; subst l'. apply ain_arg_in in Hx.
+    destruct (array_assign_refines l r al n x Hx) as (r' & al' & -> & Hc).
+    eexists; eexists; split; [reflexivity|]. rewrite repeat_length. lia.
+  - (* assign(range) *) inversion Hs; subst l'.
+    destruct (array_assign_range_refines l r al vs) as (r' & al' & -> & Hc).
+    eexists; eexists; split; [reflexivity|]. rewrite map_length. lia.
+  - (* RemoveBack *) destruct (Nat.leb_spec n (length l)); inversion Hs; subst l'.
+    rewrite array_remove_back_refines by auto. eexists; eexists; split; [reflexivity|]. rewrite firstn_length. lia.
+  - (* Clear *) inversion Hs; subst l'.
+    destruct (array_clear_refines l r al shrink) as (r' & -> & H1 & H2).
+    eexists; eexists; split; [reflexivity|]. simpl. destruct shrink; [rewrite H1 by auto|rewrite H2 by auto]; lia.
+  - (* input-iterator Insert *) destruct (Nat.leb_spec index (length l)); inversion Hs; subst l'.
+    rewrite length_spec, map_length in HB by auto.
+    destruct (array_insert_input_refines vs l r al index H (Hfit (length l + length vs) ltac:(lia))) as (r' & al' & -> & Hc).
+    eexists; eexists; split; [reflexivity|]. rewrite length_spec, map_length by auto. lia.
+  - (* Reserve *) inversion Hs; subst l'. simpl in Hsz.
+    destruct (array_reserve_ok l r al n (Hfit (n) ltac:(lia))) as (r' & -> & _ & Hc & _).
+    eexists; eexists; split; [reflexivity|]. lia.
+  - (* Shrink *) inversion Hs; subst l'.
+    destruct (array_shrink_refines l r al n Hwf) as (r' & al' & -> & Hc & _).
+    eexists; eexists; split; [reflexivity|]. lia.
+  - (* a[i] = v *) destruct (Nat.ltb_spec i (length l)); inversion Hs; subst l'.
+    rewrite array_set_refines by auto. eexists; eexists; split; [reflexivity|]. rewrite length_lset. lia.
+Qed.
+
 Fixpoint run_ops (a : array) (os : list (op V)) : res array :=
   match os with [] => Ok a | o :: t => a' <- run_op a o ;; run_ops a' t end.
-Fixpoint spec_ops (l : list V) (d : V) (os : list (op V)) : option (list V) :=
-  match os with [] => Some l | o :: t => match spec_op l d o with Some l' => spec_ops l' d t | None => None end end.
-(* every operation of the history is meaningful on the list level, and every intermediate length and every reserved
-   amount is at most B *)
-Fixpoint bounded (l : list V) (d : V) (os : list (op V)) (B : nat) : Prop :=
+Fixpoint spec_ops (l : list O) (os : list (op V)) : option (list O) :=
+  match os with [] => Some l | o :: t => match spec_op l o with Some l' => spec_ops l' t | None => None end end.
+(* every operation is meaningful on the list level; every intermediate length / reserved amount is <= B *)
+Fixpoint bounded (l : list O) (os : list (op V)) (B : nat) : Prop :=
   match os with
   | [] => True
-  | o :: t => match spec_op l d o with
-              | Some l' => length l' <= B /\ (forall n, o = OReserve V n -> n <= B) /\ bounded l' d t B
+  | o :: t => match spec_op l o with
+              | Some l' => length l' <= B /\ op_size o <= B /\ bounded l' t B
               | None => False
               end
   end.
 
-Theorem history_refines (os : list (op V)) : forall (l : list V) r al d B,
-  bounded l d os B -> fits B ->
-  exists l' r' al', spec_ops l d os = Some l' /\
-    run_ops (mkArray (arr_of l r) al) os = Ok (mkArray (arr_of l' r') al') /\
-    length l + r <= length l' + r' /\
-    (B <= length l + r -> al' = al /\ length l' + r' = length l + r).
+Theorem history_refines (os : list (op V)) : forall (l : list O) r al B,
+  bounded l os B -> length l <= B -> fits (B + 1) -> ic <= length l + r ->
+  exists l' r' al', spec_ops l os = Some l' /\
+    run_ops (mkArray (arr_ofo l r) al) os = Ok (mkArray (arr_ofo l' r') al') /\ ic <= length l' + r'.
 Proof.
-  induction os as [|o t IH]; intros l r al d B Hb Hf; simpl in *.
-  - exists l, r, al. repeat split; auto.
-  - destruct (spec_op l d o) as [l1|] eqn:Hs; [|contradiction]. destruct Hb as (Hlen & Hres & Hb).
-    destruct (step_refines l l1 r al d o B Hs Hlen Hres Hf) as (r1 & al1 & -> & Hcap1 & Hno1). simpl.
-    destruct (IH l1 r1 al1 d B Hb Hf) as (l' & r' & al' & Hspec & Hrun & Hcap & Hno).
-    exists l', r', al'. split; [auto|]. split; [auto|]. split; [lia|]. intros HB.
-    destruct (Hno1 HB) as (-> & Hc). destruct (Hno ltac:(lia)) as (-> & Hc'). split; auto. lia.
+  induction os as [|o t IH]; intros l r al B Hb Hl Hf Hwf; simpl in *.
+  - exists l, r, al. auto.
+  - destruct (spec_op l o) as [l1|] eqn:Hs; [|contradiction]. destruct Hb as (Hlen & Hsz & Hb).
+    destruct (step_full l l1 r al o B Hs Hl Hlen Hsz Hf Hwf) as (r1 & al1 & -> & Hwf1). simpl.
+    apply (IH l1 r1 al1 B); auto.
 Qed.
 
-(* after Reserve(n): any history of AddBack / Insert (n copies, ranges) / Remove / Reserve with aliased arguments whose
-   lengths stay <= n performs NO allocation, and still refines the list operations *)
-Theorem reserve_then_grow_no_alloc (l : list V) r al n d (os : list (op V)) :
-  fits n -> length l <= n -> bounded l d os n ->
+(* ---- no allocation within the reserved capacity: operations that only add / remove / overwrite elements ---- *)
+Definition keeps_buffer (o : op V) : bool :=
+  match o with OShrink _ _ | OAssign _ _ _ | OAssignRange _ _ | OClear _ _ | OInsertInput _ _ _ => false | _ => true end.
+
+Lemma step_no_alloc (l l' : list O) r al (o : op V) B :
+  spec_op l o = Some l' -> keeps_buffer o = true -> length l <= B -> length l' <= B -> op_size o <= B -> fits (B + 1) ->
+  B <= length l + r ->
+  exists r', run_op (mkArray (arr_ofo l r) al) o = Ok (mkArray (arr_ofo l' r') al) /\ length l' + r' = length l + r.
+Proof.
+  intros Hs Hk HlB HB Hsz HfB Hcap.
+  assert (Hfit : forall n, n <= B + 1 -> fits n) by (intros n Hn; apply (fits_le n (B + 1)); auto).
+  destruct o; simpl in Hs, Hk; try discriminate; simpl run_op.
+  - destruct (ain l x) eqn:Hx; inversion Hs; subst l'. apply ain_arg_in in Hx. rewrite app_length in *; simpl in *.
+    destruct (array_add_back_refines l r al x Hx (Hfit (length l + 1) ltac:(lia))) as (r' & -> & Hr & Hc).
+    destruct (Nat.eqb_spec r 0); [lia|]. eexists; split; [reflexivity|]. rewrite ?app_length; simpl. rewrite Hr by lia. lia.
+  - destruct (ain l x) eqn:Hx; simpl in Hs; [|discriminate]. apply ain_arg_in in Hx.
+    destruct (is_val x || nothrowMove || nothrowReloc) eqn:Hfl; inversion Hs; subst l'.
+    rewrite app_length, length_moved_out in *; simpl in *.
+    destruct (array_add_back_rvalue_refines l r al x Hx (Hfit (length l + 1) ltac:(lia))) as (r' & He & Hr & Hc).
+    destruct (Nat.ltb_spec 0 r); [|lia]. cbn [orb] in He. destruct (Nat.eqb_spec r 0); [lia|].
+    rewrite He. eexists; split; [reflexivity|]. rewrite ?app_length, ?length_moved_out; simpl. rewrite Hr by lia. lia.
+  - destruct (Nat.leb_spec index (length l)); simpl in Hs; [|discriminate].
+    destruct (ain l x) eqn:Hx; inversion Hs; subst l'. apply ain_arg_in in Hx.
+    rewrite length_spec, repeat_length in * by auto.
+    destruct (array_insert_refines l r al index count x H Hx (Hfit (length l + count) ltac:(lia))) as (r' & -> & Hr & Hc).
+    destruct (Nat.ltb_spec r count); [lia|]. eexists; split; [reflexivity|].
+    rewrite ?length_spec, ?repeat_length by auto. rewrite Hr by lia. lia.
+  - destruct (Nat.leb_spec index (length l)); simpl in Hs; [|discriminate].
+    destruct (ain l x) eqn:Hx; inversion Hs; subst l'. apply ain_arg_in in Hx.
+    simpl in HB. rewrite length_ins1 in HB by (rewrite length_moved_out; auto). rewrite length_moved_out in HB.
+    destruct (array_insert_rvalue_refines l r al index x H Hx (Hfit (length l + 1) ltac:(lia))) as (r' & -> & Hr & Hc).
+    destruct (Nat.eqb_spec r 0); [lia|]. eexists; split; [reflexivity|].
+    simpl. rewrite length_ins1 by (rewrite length_moved_out; auto). rewrite length_moved_out. rewrite Hr by lia. lia.
+  - destruct (Nat.leb_spec index (length l)); inversion Hs; subst l'.
+    rewrite length_spec, map_length in * by auto.
+    destruct (array_insert_range_refines l r al index vs H (Hfit (length l + length vs) ltac:(lia))) as (r' & -> & Hr & Hc).
+    destruct (Nat.ltb_spec r (length vs)); [lia|]. eexists; split; [reflexivity|].
+    rewrite ?length_spec, ?map_length by auto. rewrite Hr by lia. lia.
+  - destruct (Nat.leb_spec (index + count) (length l)); inversion Hs; subst l'.
+    rewrite array_remove_refines by auto. eexists; split; [reflexivity|].
+    rewrite app_length, firstn_length, skipn_length. lia.
+  - inversion Hs; subst l'. rewrite array_remove_filter_refines.
+    eexists; split; [reflexivity|]. pose proof (filter_len_le (keep V p) l). lia.
+  - destruct (ain l x) eqn:Hx; inversion Hs; subst l'. apply ain_arg_in in Hx.
+    rewrite app_length, firstn_length, repeat_length in HB.
+    (* SetCount: re-derive the exact state *)
+    unfold array_set_count. cbv zeta. simpl body. simpl allocs.
+    replace (cnt (arr_ofo l r)) with (length l) by reflexivity. rewrite cap_arr_ofo.
+    destruct (Nat.leb_spec n (length l)).
+    + unfold with_body. rewrite remove_back_arr_ofo by lia.
+      replace (length l - (length l - n)) with n by lia. replace (n - length l) with 0 by lia. simpl. rewrite app_nil_r.
+      eexists; split; [reflexivity|]. rewrite firstn_length. lia.
+    + rewrite firstn_all2 by lia. destruct (Nat.leb_spec n (length l + r)); [|lia].
+      unfold with_body.
+      rewrite (push_loop (fun b => read_arg V b x) (arg_val l x) (n - length l)); try lia.
+      * simpl. eexists; split; [reflexivity|]. rewrite app_length, repeat_length. lia.
+      * intros k' r'. apply read_arg_app; auto.
+  - destruct (Nat.leb_spec n (length l)); inversion Hs; subst l'.
+    rewrite array_remove_back_refines by auto. eexists; split; [reflexivity|]. rewrite firstn_length. lia.
+  - inversion Hs; subst l'. simpl in Hsz.
+    destruct (array_reserve_ok l r al n (Hfit (n) ltac:(lia))) as (r' & -> & _ & _ & Hr).
+    destruct (Nat.ltb_spec (length l + r) n); [lia|]. rewrite Hr by lia. eexists; split; [reflexivity|]. lia.
+  - destruct (Nat.ltb_spec i (length l)); inversion Hs; subst l'.
+    rewrite array_set_refines by auto. eexists; split; [reflexivity|]. rewrite length_lset. lia.
+Qed.
+
+Fixpoint all_keep (os : list (op V)) : bool := match os with [] => true | o :: t => keeps_buffer o && all_keep t end.
+
+Theorem history_no_alloc (os : list (op V)) : forall (l : list O) r al B,
+  bounded l os B -> all_keep os = true -> length l <= B -> fits (B + 1) -> B <= length l + r ->
+  exists l' r', spec_ops l os = Some l' /\
+    run_ops (mkArray (arr_ofo l r) al) os = Ok (mkArray (arr_ofo l' r') al) /\ length l' + r' = length l + r.
+Proof.
+  induction os as [|o t IH]; intros l r al B Hb Hk Hl Hf Hcap; simpl in *.
+  - exists l, r. auto.
+  - destruct (spec_op l o) as [l1|] eqn:Hs; [|contradiction]. destruct Hb as (Hlen & Hsz & Hb).
+    apply andb_prop in Hk. destruct Hk as (Hk1 & Hk2).
+    destruct (step_no_alloc l l1 r al o B Hs Hk1 Hl Hlen Hsz Hf Hcap) as (r1 & -> & Hc1). simpl.
+    destruct (IH l1 r1 al B Hb Hk2 Hlen Hf ltac:(lia)) as (l' & r' & H1 & H2 & H3).
+    exists l', r'. repeat split; auto. lia.
+Qed.
+
+(* after Reserve(n): any history of element-level operations (AddBack / AddBack&& / Insert / Insert&& / Insert range /
+   Remove / Remove(filter) / SetCount / RemoveBack / Reserve(<= n) / a[i] = v, arguments aliasing any element, empty
+   ranges) whose lengths stay <= n performs NO allocation *)
+Theorem reserve_then_grow_no_alloc (l : list O) r al n (os : list (op V)) :
+  fits (n + 1) -> length l <= n -> bounded l os n -> all_keep os = true ->
   exists r1 al1 l' r',
-    array_reserve V growOnReserve (mkArray (arr_of l r) al) n = Ok (mkArray (arr_of l r1) al1) /\
+    array_reserve V growOnReserve (mkArray (arr_ofo l r) al) n = Ok (mkArray (arr_ofo l r1) al1) /\
     n <= length l + r1 /\
-    spec_ops l d os = Some l' /\
-    run_ops (mkArray (arr_of l r1) al1) os = Ok (mkArray (arr_of l' r') al1) /\
+    spec_ops l os = Some l' /\
+    run_ops (mkArray (arr_ofo l r1) al1) os = Ok (mkArray (arr_ofo l' r') al1) /\
     length l' + r' = length l + r1.
 Proof.
-  intros Hf Hl Hb.
-  destruct (array_reserve_ok l r al n Hf) as (r1 & Hres & Hn & _ & _).
-  destruct (history_refines os l r1 (if length l + r <? n then S al else al) d n Hb Hf)
-    as (l' & r' & al' & Hspec & Hrun & _ & Hno).
-  destruct (Hno Hn) as (-> & Hc).
+  intros Hf Hl Hb Hk.
+  destruct (array_reserve_ok l r al n (fits_le n (n + 1) ltac:(lia) Hf)) as (r1 & Hres & Hn & _ & _).
+  destruct (history_no_alloc os l r1 (if length l + r <? n then S al else al) n Hb Hk Hl Hf Hn) as (l' & r' & H1 & H2 & H3).
   eexists r1, _, l', r'. split; [exact Hres|]. repeat split; auto.
 Qed.
 End AP.
 
-(* non-vacuity: a history with aliased arguments, empty ranges and a Reserve satisfies `bounded` *)
+(* non-vacuity: a history over the full alphabet, with aliased lvalue and rvalue arguments, empty ranges, filters *)
 Example bounded_example :
-  bounded nat [1;2;3] 0 [OAddBack nat (ArgRef 0); OInsert nat 1 2 (ArgRef 3); ORemove nat 0 0; OInsert nat 2 0 (ArgRef 1);
-                     OReserve nat 9; OInsertRange nat 6 [7;8]; ORemove nat 1 3] 10
-  /\ spec_ops nat [1;2;3] 0 [OAddBack nat (ArgRef 0); OInsert nat 1 2 (ArgRef 3); ORemove nat 0 0; OInsert nat 2 0 (ArgRef 1);
-                     OReserve nat 9; OInsertRange nat 6 [7;8]; ORemove nat 1 3] = Some [1;3;1;7;8].
-Proof.
-  split; [|reflexivity]. simpl. repeat split; try lia; intros n H; try discriminate. inversion H; lia.
-Qed.
+  let os := [OAddBack nat (ArgRef 0); OInsert nat 1 2 (ArgRef 3); ORemove nat 0 0; OInsert nat 2 0 (ArgRef 1);
+             OReserve nat 9; OInsertRange nat 6 [7;8]; OInsertR nat 0 (ArgRef 2); OSet nat 3 5; OAddBackR nat (ArgVal 9);
+             ORemoveFilter nat (fun v => v =? 1); OSetCount nat 6 (ArgRef 0); OShrink nat 0; ORemoveBack nat 2;
+             OInsertInput nat 1 [4;4]; OAssign nat 3 (ArgRef 1); OClear nat true] in
+  bounded nat (fun _ => None) true true (map Some [1;2;3]) os 12 /\
+  all_keep nat (firstn 11 os) = true /\
+  spec_ops nat (fun _ => None) true true (map Some [1;2;3]) (firstn 14 os) = Some (map Some [5;4;4;2;3;7]).
+Proof. vm_compute. repeat split; auto; lia. Qed.
